@@ -117,14 +117,14 @@ theorem C15_remove_frame {w w' : World} {id : Ident} {drops : List Val}
 /-- `clear` never touches a resource. -/
 theorem C15_clear_frame {w w' : World} {order : List Mask} {drops : List Val}
     (e : w.clear order = .ok (w', drops)) : w'.res = w.res := by
-  unfold World.clear at e
-  try dsimp only at e
-  repeat' (split at e)
+  obtain ⟨w0, e0, rfl⟩ := clear_eq e
+  show w0.res = w.res
+  unfold World.clearRaw at e0
+  try dsimp only at e0
+  repeat' (split at e0)
   all_goals (first
-    | (simp at e; done)
-    | (simp at e; obtain ⟨rfl, _⟩ := e; rfl)
-    | (simp at e; obtain ⟨rfl, _⟩ := e; simp [World.setArch])
-    | (simp at e; subst e; rfl))
+    | (simp at e0; done)
+    | (simp at e0; obtain ⟨rfl, _⟩ := e0; rfl))
 
 /-- `reserve` and `shrink_to_fit` never touch a resource. -/
 theorem C15_reserve_frame {w w' : World} {shape : List Nat} (e : w.reserve shape = .ok w') :
